@@ -129,12 +129,17 @@ func cholesky_ldl_forcepd_float64(A *DenseFloat64Matrix, L, D *DenseFloat64Matri
       }
     }
     // compute d_j = max(|c_jj|, (theta_j/beta)^2, delta)
+    d_j := math.Max(math.Abs(c_jj.GetFloat64()), delta)
     if j != n-1 {
-      D.AT(j,j).SetFloat64(
-        math.Max(math.Max(math.Abs(c_jj.GetFloat64()), math.Pow((theta/beta), 2.0)), delta))
+      d_j = math.Max(d_j, math.Pow((theta/beta), 2.0))
+    }
+    if d_j == math.Abs(c_jj.GetFloat64()) {
+      // d_j = |c_jj|, keep the derivatives of c_jj
+      if c_jj.GetFloat64() < 0.0 {
+        c_jj.Neg(c_jj)
+      }
     } else {
-      D.AT(j,j).SetFloat64(
-        math.Max(math.Abs(c_jj.GetFloat64()), delta))
+      D.AT(j,j).SetFloat64(d_j)
     }
     // compute l_ij = c_ij/d_j
     for i := j+1; i < n; i++ {
